@@ -508,15 +508,27 @@ func Run(root string, inv *Invocation) (*Outcome, error) {
 		}(fp, ff.Content)
 	}
 	defer func() {
-		// release the feeders: a non-blocking reader lets a pending open return
+		// release the feeders: a non-blocking reader lets a pending open
+		// return. A feeder may enter its blocking open only after one such
+		// reader has come and gone, so keep offering readers until all
+		// feeders have left.
 		stopFeed.Store(true)
-		for _, ff := range inv.Fifos {
-			if r, err := os.OpenFile(filepath.Join(root, Real(ff.Path)), os.O_RDONLY|syscall.O_NONBLOCK, 0); err == nil {
-				time.Sleep(time.Millisecond)
-				r.Close()
+		gone := make(chan struct{})
+		go func() { feedWG.Wait(); close(gone) }()
+		for {
+			select {
+			case <-gone:
+				return
+			default:
 			}
+			for _, ff := range inv.Fifos {
+				if r, err := os.OpenFile(filepath.Join(root, Real(ff.Path)), os.O_RDONLY|syscall.O_NONBLOCK, 0); err == nil {
+					time.Sleep(time.Millisecond)
+					r.Close()
+				}
+			}
+			time.Sleep(2 * time.Millisecond)
 		}
-		feedWG.Wait()
 	}()
 	done := make(chan error, 1)
 	go func() { done <- cmd.Wait() }()
